@@ -125,6 +125,11 @@ Fixpoint xev (rec : nat -> St -> option rawlimit -> nat * res hist) (r : ret) (n
                     | (n1, Err e) => (n1, Err e)
                     end
   | RRaise e => (n, Err e)
+  (* the handler runs with the SAME rec, i.e. the same inherited limit, depth and path probability *)
+  | RTry c r1 r2 => match xev rec r1 n with
+                    | (n1, Ok x) => (n1, Ok x)
+                    | (n1, Err e) => if c e then xev rec r2 n1 else (n1, Err e)
+                    end
   end.
 
 (* the loop over the branches; [rec pi'] is a nested call made on a path of probability pi' *)
@@ -197,6 +202,10 @@ Definition cev (rec : evstate -> St -> option rawlimit -> evstate * res hist) :=
                     | (s1, Err e) => (s1, Err e)
                     end
   | RRaise e => (s, Err e)
+  | RTry c r1 r2 => match ev r1 s with
+                    | (s1, Ok x) => (s1, Ok x)
+                    | (s1, Err e) => if c e then ev r2 s1 else (s1, Err e)
+                    end
   end.
 
 Definition cloop (ev : ret -> evstate -> evstate * res val) (l : limit) (cur : ctxt) (tot : Z) (st : St) :=
@@ -269,6 +278,10 @@ Lemma cev_eq rec r s :
                     | (s1, Err e) => (s1, Err e)
                     end
   | RRaise e => (s, Err e)
+  | RTry c r1 r2 => match cev rec r1 s with
+                    | (s1, Ok x) => (s1, Ok x)
+                    | (s1, Err e) => if c e then cev rec r2 s1 else (s1, Err e)
+                    end
   end.
 Proof. destruct r; reflexivity. Qed.
 
@@ -297,7 +310,7 @@ Definition agrees (c : cvar) (crec : evstate -> St -> option rawlimit -> evstate
 Lemma cev_xev c crec xrec : agrees c crec xrec ->
   forall r m, cev crec r (c, m) = let '(m', v) := xev xrec r m in ((c, m'), v).
 Proof.
-  intros H. induction r as [o|h|st' lim'|f r' IH|f r1 IH1 r2 IH2|e]; intros m; rewrite cev_eq; cbn [xev].
+  intros H. induction r as [o|h|st' lim'|f r' IH|f r1 IH1 r2 IH2|e|catch r1 IH1 r2 IH2]; intros m; rewrite cev_eq; cbn [xev].
   - reflexivity.
   - reflexivity.
   - rewrite H. destruct (xrec m st' lim') as [m' [h|e]]; reflexivity.
@@ -305,6 +318,10 @@ Proof.
   - rewrite IH1. destruct (xev xrec r1 m) as [m1 [x1|e]]; [|reflexivity].
     rewrite IH2. destruct (xev xrec r2 m1) as [m2 [x2|e]]; reflexivity.
   - reflexivity.
+  - (* the failed protected term has restored the ContextVar to c, so the handler is again a
+       ContextVar evaluation from (c, m1) and the induction hypothesis applies *)
+    rewrite IH1. destruct (xev xrec r1 m) as [m1 [x1|e]]; [reflexivity|].
+    destruct (catch e); [|reflexivity]. apply IH2.
 Qed.
 
 Lemma cloop_xloop crec xrec l cur tot st :
